@@ -106,10 +106,34 @@ def worker_main(pid, tier, seed, k, n, outfile):
     mod = module_for(pid)
     sh = Shard(tier, int(seed), int(k), int(n))
     t0 = time.time()
+    entered = {}
     try:
+        if getattr(mod, 'COUNT_ENTRIES', True):
+            # reach evidence: which functions of the package this shard's workload entered (PY_START events, tool id 1)
+            import prettyprinter
+            pkg = os.path.dirname(os.path.abspath(prettyprinter.__file__)) + os.sep
+            mon = sys.monitoring
+            mon.use_tool_id(1, 'verif-entries')
+
+            def on_start(code, offset):
+                if not code.co_filename.startswith(pkg):
+                    return mon.DISABLE
+                q = os.path.basename(code.co_filename)[:-3] + '.' + code.co_qualname
+                entered[q] = entered.get(q, 0) + 1
+
+            mon.register_callback(1, mon.events.PY_START, on_start)
+            mon.set_events(1, mon.events.PY_START)
         mod.run_shard(sh)
     except BaseException:
         sh.inconclusive.append('worker %s/%s crashed: %s' % (k, n, traceback.format_exc()[-1500:]))
+    finally:
+        if entered:
+            try:
+                sys.monitoring.set_events(1, 0)
+            except Exception:
+                pass
+            sh.notes['package functions entered per shard (calls, last shard shown)'] = dict(sorted(entered.items(), key=lambda kv: -kv[1])[:80])
+            sh.sets['package functions entered'] = set(entered)
     sh.notes['wall_s_%s' % k] = round(time.time() - t0, 2)
     with open(outfile, 'wb') as f:
         pickle.dump(sh, f)
@@ -219,6 +243,13 @@ def main(argv):
     timeout = getattr(mod, 'WATCHDOG', {}).get(tier, 900 if tier == 'quick' else 7200)
     shards = run_workers(pid, tier, seed, nshards, timeout, getattr(mod, 'ENV', None))
     m = merge(shards)
+    anchors = getattr(mod, 'ANCHORS', None)
+    if anchors:
+        seen = m.sets.get('package functions entered', set())
+        missing = [a for a in anchors if a not in seen]
+        if missing:
+            m.inconclusive.append('anchored functions never entered by the workload: %s' % missing)
+        m.notes['anchored functions entered'] = [a for a in anchors if a in seen]
     if hasattr(mod, 'finalize'):
         try:
             mod.finalize(m)
